@@ -256,7 +256,7 @@ func (e *env) value(x Expr) *sym {
 		i := e.rvalue(x.I)
 		switch u := base.typ.Underlying().(type) {
 		case *types.Slice:
-			return &sym{typ: u.Elem(), pl: &place{kind: plElem, base: "(sbase " + base.t + ")", idx: "(+ (soff " + base.t + ") " + i.t + ")", elemT: u.Elem(), typ: u.Elem()}}
+			return &sym{typ: u.Elem(), pl: &place{kind: plElem, base: "(sbase " + base.t + ")", idx: "(sidx " + base.t + " " + i.t + ")", elemT: u.Elem(), typ: u.Elem()}}
 		case *types.Map:
 			if base.bound != nil { // ghost map
 				return &sym{t: "(select " + base.t + " " + i.t + ")", typ: u.Elem()}
@@ -551,6 +551,9 @@ func (e *env) call(x *ECall) *sym {
 		if len(x.Args) != len(d.Params) {
 			e.errf("%s: %d arguments for %d parameters", x.F, len(x.Args), len(d.Params))
 		}
+		if d.Rec {
+			return e.recCall(d, x)
+		}
 		if e.depth > 20 {
 			e.errf("%s: expansion too deep (recursive definition?)", x.F)
 		}
@@ -817,4 +820,73 @@ func (e *env) heapKeysOfSpec(spec string) []string {
 	}
 	e.errf("cannot resolve heap spec %q in %s", spec, e.pkgPath)
 	return nil
+}
+
+
+// ---------- recursive spec functions (define-fun-rec with the heaps they read as parameters) ----------
+
+func (e *env) recCall(d *SpecDef, x *ECall) *sym {
+	vc := e.vc
+	if vc.recs == nil {
+		vc.recs = map[string]*recInfo{}
+	}
+	info := vc.recs[d.Name]
+	if info == nil {
+		info = vc.defineRec(d)
+	}
+	var terms []string
+	for i := range d.Params {
+		terms = append(terms, e.rvalue(x.Args[i]).t)
+	}
+	if !info.done && e.cur.param == nil {
+		e.errf("recursive spec function %s used while being defined", d.Name)
+	}
+	for _, k := range info.keys {
+		terms = append(terms, vc.hget(e.cur, k))
+	}
+	if !info.done {
+		// inside the definition (first pass): the heap parameter list is not final yet; force the heaps of
+		// the enclosing definition to be the ones passed on
+		return &sym{t: "(" + info.name + " " + strings.Join(terms, " ") + ")", typ: info.rty}
+	}
+	return &sym{t: "(" + info.name + " " + strings.Join(terms, " ") + ")", typ: info.rty}
+}
+
+func (vc *FnVC) defineRec(d *SpecDef) *recInfo {
+	rty, err := vc.w.lookupType(d.Result, d.Pkg)
+	if err != nil {
+		fail("sfunc %s: %v", d.Name, err)
+	}
+	info := &recInfo{name: "sf_" + mangle(d.Name), rty: rty}
+	vc.recs[d.Name] = info
+	var body string
+	var binders []string
+	// iterate until the set of heaps read is stable (the recursive call passes the same heaps on)
+	for pass := 0; pass < 4; pass++ {
+		keys := append([]string{}, info.keys...)
+		pst := &state{h: map[string]string{}, havocked: "false", param: &keys}
+		f := &frame{vc: vc, names: map[string]*sym{}, fn: vc.fn}
+		en := &env{f: f, vc: vc, vars: map[string]*sym{}, cur: pst, old: nil, pkgPath: d.Pkg}
+		binders = nil
+		for _, b := range d.Params {
+			ty, err := vc.w.lookupType(b.Type, d.Pkg)
+			if err != nil {
+				fail("sfunc %s: %v", d.Name, err)
+			}
+			n := "rp_" + mangle(b.Name)
+			en.vars[b.Name] = &sym{t: n, typ: ty}
+			binders = append(binders, "("+n+" "+vc.w.so.sortOf(ty)+")")
+		}
+		body = en.rvalue(d.Body).t
+		if len(keys) == len(info.keys) {
+			break
+		}
+		info.keys = keys
+	}
+	for _, k := range info.keys {
+		binders = append(binders, "(hp_"+mangle(k)+" "+vc.heapSort(k)+")")
+	}
+	vc.emit(fmt.Sprintf("(define-fun-rec %s (%s) %s %s)", info.name, strings.Join(binders, " "), vc.w.so.sortOf(rty), body))
+	info.done = true
+	return info
 }
